@@ -49,7 +49,8 @@ type cnDB struct {
 	items    []cnItem
 	pet      int // 0 none, 1 cat, 2 dog
 	petVal   int64
-	failMode int // 0 ok, 1 plain error, 2 safe error, 3 panic
+	slowUs   int
+	failMode int // 0 ok, 1 plain error, 2 safe error, 3 panic, 4 plain error wrapping context.Canceled
 	res      *reactive.Resource
 	cleanups *int32
 	allClean []*int32
@@ -122,6 +123,9 @@ func cnSchema(db *cnDB, rec *cnRec) *graphql.Schema {
 		id, _ := ctx.Value(cnSubIDKey{}).(string)
 		rec.add("exec", id, field, "")
 		db.dep(ctx)
+		if db.slowUs > 0 {
+			time.Sleep(time.Duration(db.slowUs) * time.Microsecond)
+		}
 		db.mu.Lock()
 		mode := db.failMode
 		db.mu.Unlock()
@@ -133,6 +137,12 @@ func cnSchema(db *cnDB, rec *cnRec) *graphql.Schema {
 				return graphql.NewSafeError("safe-text")
 			case 3:
 				panic("secret-panic-text")
+			case 4:
+				// an ordinary failure whose text mentions a cancellation it wraps: not a cancellation of this run
+				return fmt.Errorf("secret-upstream-gave-up: %w", context.Canceled)
+			case 5:
+				// the resolver itself reports a cancellation (an upstream call was cancelled): the subscription ends quietly
+				return context.Canceled
 			}
 		}
 		return nil
@@ -278,6 +288,10 @@ type cnCase struct {
 	Seed    uint64     `json:"seed"`
 	Actions []cnAction `json:"actions"`
 	MaxSubs int        `json:"max_subs"`
+	// CloseEarly: the socket is closed right after the last action, while runs may be in flight (no settling first)
+	CloseEarly bool `json:"close_early,omitempty"`
+	// SlowUs: every resolver entry takes this long, so that closes, unsubscribes and failures land inside runs
+	SlowUs int `json:"slow_us,omitempty"`
 }
 
 type cnResult struct {
@@ -374,7 +388,7 @@ func cnApplyChange(db *cnDB, r *Rand, arg int64) {
 func cnRun(cs cnCase) *cnResult {
 	r := NewRand(cs.Seed)
 	rec := &cnRec{}
-	db := &cnDB{}
+	db := &cnDB{slowUs: cs.SlowUs}
 	db.items = []cnItem{{ID: 1, Name: "one", Tags: []string{"x"}}, {ID: 2, Name: "two", Tags: []string{}}}
 	schema := cnSchema(db, rec)
 	oldDelay := reactive.WriteThenReadDelay
@@ -465,6 +479,48 @@ func cnRun(cs cnCase) *cnResult {
 		if r.Chance(0.5) {
 			runtime.Gosched()
 		}
+	}
+	if cs.CloseEarly {
+		// no settling: close while whatever is running runs
+		rec.add("quiescent", "", nil, "")
+		res.Final = map[string]interface{}{}
+		sock.Close()
+		select {
+		case <-served:
+		case <-time.After(3 * time.Second):
+			res.Problem = "ServeJSONSocket did not return after the socket closed"
+		}
+		rec.add("closed", "", nil, "")
+		db.change(func() { db.failMode = 0 })
+		deadline := time.Now().Add(6 * time.Second)
+		for {
+			rec.mu.Lock()
+			before := rec.seq
+			rec.mu.Unlock()
+			time.Sleep(25 * time.Millisecond)
+			rec.mu.Lock()
+			same := rec.seq == before
+			rec.mu.Unlock()
+			if same {
+				break
+			}
+			if time.Now().After(deadline) {
+				res.Problem = "no quiescence after close"
+				break
+			}
+		}
+		cnApplyChange(db, r, 7)
+		time.Sleep(30 * time.Millisecond)
+		rec.mu.Lock()
+		res.Events = append([]cnEvent{}, rec.events...)
+		rec.mu.Unlock()
+		db.mu.Lock()
+		for i, c := range db.allClean {
+			res.Cleanups = append(res.Cleanups, atomic.LoadInt32(c))
+			res.Used = append(res.Used, atomic.LoadInt32(db.used[i]))
+		}
+		db.mu.Unlock()
+		return res
 	}
 	// let the data settle: heal, one last change, then wait until nothing happens any more
 	db.change(func() { db.failMode = 0 })
